@@ -24,13 +24,23 @@ type C12 struct {
 	lastDeliv   map[string]uint64
 	slashChecked, slashLagged, unknownID bool
 	confirmHeight map[string]int64
+	preCur        uint64 // validator-set update id in use at the start of the provider block
+	preCurMapped  bool
+	havePre       bool
 }
 
 func NewC12(w *world.World) *C12 {
 	return &C12{rc: newRecorder(), assoc: map[string]map[int64]uint64{}, lastDeliv: map[string]uint64{}, confirmHeight: map[string]int64{}}
 }
 
-func (m *C12) Before(*world.World, *world.Action) {}
+func (m *C12) Before(w *world.World, a *world.Action) {
+	if a.Kind == world.KBlock && (a.Chain == "" || a.Chain == "provider") && w.P.Height > 0 {
+		k := w.P.PApp.ProviderKeeper
+		m.preCur = k.GetValidatorSetUpdateId(w.P.Ctx())
+		_, m.preCurMapped = k.GetValsetUpdateBlockHeight(w.P.Ctx(), m.preCur)
+		m.havePre = true
+	}
+}
 
 func decodeSlash(data []byte) (ccvtypes.SlashPacketData, bool) {
 	// consumers put slash packets on the wire in the v1 format; decode as the provider's IBC module does
@@ -85,6 +95,9 @@ func (m *C12) After(w *world.World, a *world.Action, r *world.StepResult) *Viola
 				continue
 			}
 			eh, known := m.rc.idHeight[id]
+			if m.havePre && id == m.preCur {
+				known = false // the id in use while the txs ran: its height was the provisional one
+			}
 			if !known {
 				if id == k.GetValidatorSetUpdateId(ctx) || id+1 == k.GetValidatorSetUpdateId(ctx) {
 					// the id in use when the packet was handled: it has a height (mapped every block) although no
@@ -115,8 +128,14 @@ func (m *C12) After(w *world.World, a *world.Action, r *world.StepResult) *Viola
 					continue
 				}
 				_, issued := m.rc.idHeight[sp.ValsetUpdateId]
-				if sp.ValsetUpdateId == cur {
-					issued = true // the current id has a height too (it is mapped every block)
+				_ = cur
+				if m.havePre && sp.ValsetUpdateId >= m.preCur {
+					// the id in use when the txs ran has a height only once it was mapped at the end of an earlier
+					// block; either verdict is consistent for it, later ids are unknown
+					if sp.ValsetUpdateId == m.preCur {
+						continue
+					}
+					issued = false
 				}
 				if sp.ValsetUpdateId == 0 {
 					issued = true
